@@ -106,7 +106,9 @@ func genPayload(r *Rng, around []int) []byte {
 	case k < 92: // marker followed by continuation bytes
 		b := append([]byte{}, magic...)
 		b = append(b, byte(r.Intn(2)))
-		for i := 0; i < 3+r.Intn(12); i++ {
+		// around Go's limit of ten varint bytes (it gives up after ten continuation bytes without reading an eleventh)
+		cnt := []int{3, 8, 9, 10, 10, 10, 11, 14}[r.Intn(8)]
+		for i := 0; i < cnt; i++ {
 			b = append(b, 0x80|byte(r.Next()))
 		}
 		return b
